@@ -1005,8 +1005,17 @@ func (fc *FnCtx) doBuiltin(b *ssa.Builtin, cc *ssa.CallCommon, args []Val, pos t
 	if b.Name() == "copy" || b.Name() == "append" || b.Name() == "close" {
 		fc.anchorArgs = args
 		fc.anchorBefore("call "+b.Name(), pos)
-		defer fc.anchorAfter("call "+b.Name(), pos)
+		r := fc.doBuiltin2(b, cc, args, pos, resT)
+		fc.anchorArgs = args
+		fc.anchorRes = &r
+		fc.anchorAfter("call "+b.Name(), pos)
+		fc.anchorRes = nil
+		return r
 	}
+	return fc.doBuiltin2(b, cc, args, pos, resT)
+}
+
+func (fc *FnCtx) doBuiltin2(b *ssa.Builtin, cc *ssa.CallCommon, args []Val, pos token.Pos, resT types.Type) Val {
 	switch b.Name() {
 	case "len", "cap":
 		v := args[0]
@@ -1316,6 +1325,47 @@ func (fc *FnCtx) specialCall(callee *ssa.Function, args []Val, pos token.Pos, re
 	case "errors.Is":
 		fc.noteTrusted("errors.Is follows the modelled unwrap relation")
 		return boolVal(fc.errorsIs(args[0], args[1])), true
+	case "errors.As":
+		// errors.As(err, &target) for a target of a concrete type T: true iff err or one of up to three unwrap steps has
+		// dynamic type T; the first such value is stored in target (implementations of the optional As method are not modelled)
+		if call, ok := fc.curInstr.(*ssa.Call); ok && len(call.Call.Args) == 2 {
+			if mi, ok := call.Call.Args[1].(*ssa.MakeInterface); ok {
+				if pt, ok := mi.X.Type().Underlying().(*types.Pointer); ok && !isInterface(pt.Elem()) {
+					fc.noteTrusted("errors.As follows the modelled unwrap relation (no custom As methods)")
+					fc.declareFunOnce("unw_tag", "("+SortTag+" (_ BitVec 64)) "+SortTag)
+					fc.declareFunOnce("unw_pay", "("+SortTag+" (_ BitVec 64)) (_ BitVec 64)")
+					tgt := pt.Elem()
+					want := fc.tagOf(tgt)
+					ptr := fc.operand(mi.X)
+					old := fc.loadPtr(fc.cur, ptr)
+					tag, pay := args[0].L[0], args[0].L[1]
+					nonnil := "true"
+					found := "false"
+					val := old
+					type step struct {
+						c string
+						v Val
+					}
+					var steps []step
+					for i := 0; i < 4; i++ {
+						c := and(nonnil, eq(tag, want))
+						steps = append(steps, step{c, fc.unboxIface(fc.cur, Val{T: args[0].T, L: []string{tag, pay}}, tgt)})
+						nonnil = and(nonnil, not(eq(tag, bvLit(0, 16))), not(eq(tag, want)))
+						tag, pay = app("unw_tag", tag, pay), app("unw_pay", tag, pay)
+					}
+					for i := len(steps) - 1; i >= 0; i-- {
+						nv := Val{T: tgt, L: make([]string, len(val.L))}
+						for k := range val.L {
+							nv.L[k] = ite(steps[i].c, steps[i].v.L[k], val.L[k])
+						}
+						val = nv
+						found = or(steps[i].c, found)
+					}
+					fc.storePtr(fc.cur, ptr, val)
+					return boolVal(fc.define(fc.fresh("errorsAs"), SortBool, found)), true
+				}
+			}
+		}
 	case "github.com/pkg/sftp.debug":
 		return Val{T: resT}, true
 	case "sync/atomic.AddUint32", "sync/atomic.AddUint64", "sync/atomic.AddInt32", "sync/atomic.AddInt64":
